@@ -41,7 +41,17 @@ func VerifC11_SafeKeys() {
 	val := verifNondetString("val")
 	verifAssume(len(val) <= 8)
 	verifAssume(verifNot(strings.Contains(val, "\n")))
-	src := git.ParseConfigLines(key+"="+val, true)
+	text := key + "=" + val
+	switch verifChoose("second.line", 3) {
+	case 1: // the same key once more
+		val2 := verifNondetString("val2")
+		verifAssume(len(val2) <= 8)
+		verifAssume(verifNot(strings.Contains(val2, "\n")))
+		text += "\n" + key + "=" + val2
+	case 2: // a documented key before it
+		text = "lfs.url=https://example.com\n" + text
+	}
+	src := git.ParseConfigLines(text, true)
 	verifAssert(src.OnlySafeKeys, "a source parsed as safe-only is marked so")
 
 	// known findings (DESIGN.md section 8, F5): families of undocumented keys that take effect
@@ -51,7 +61,7 @@ func VerifC11_SafeKeys() {
 	verifKnown("C11-F5d-nonlfs-access", n > 2 && parts[n-1] == "access" && parts[0] != "lfs")
 
 	gf, exts, remotes := readGitConfig(src)
-	stored := len(gf.vals) > 0
+	_, stored := gf.vals[key]
 	extSet := false
 	for _, e := range exts {
 		if e.Clean != "" || e.Smudge != "" || e.Priority != 0 {
